@@ -356,7 +356,7 @@ class Dim:
                 has_abs = (tolv not in (None, 0, 0.0)) or (root != "math" and tol is None)     # numpy: atol defaults to 1e-8
                 d0 = args[0][1] if args[0][0] == "num" else None
                 if has_abs and d0 not in (None, 0, "C", "Z") and s.final:
-                    s.report(e, "isclose-abs-tol", d0, "C")
+                    s.report(e, "compare", d0, "C")      # |a - b| <= abs_tol is a comparison with a constant
                 return UNK
             if root == "math" and name == "sqrt": return num(None if args[0][1] is None else args[0][1] if args[0][1] in ("C", "Z") else args[0][1] / 2)
             if root == "np" and name == "arctan2": return num(0)
